@@ -426,8 +426,41 @@ func (ex *Exec) loopEnv(fr *Frame, li *loopInfo, st *State) map[string]CV {
 	}
 	// unique DebugRef bindings
 	cands := map[string]map[ssa.Value]bool{}
+	addrVars := map[string]CV{}
+	defer func() {
+		for n, v := range addrVars {
+			if _, ok := env[n]; !ok {
+				env[n] = v
+			}
+		}
+	}()
 	for _, b := range fr.fn.Blocks {
 		for _, in := range b.Instrs {
+			if al, ok := in.(*ssa.Alloc); ok && al.Comment != "" {
+				// a source variable living in a cell (captured by a closure): its current content
+				if sv, ok := st.vals[al]; ok && sv.Loc != nil {
+					if _, dup := addrVars[al.Comment]; !dup {
+						addrVars[al.Comment] = CV{T: ex.loadLoc(st, sv.Loc), Sort: ex.w.sortOf(sv.Loc.Elem), Type: sv.Loc.Elem}
+					}
+				}
+				continue
+			}
+			if d, ok := in.(*ssa.DebugRef); ok && d.IsAddr {
+				// variable living in a cell (captured by a closure): its current content
+				obj := d.Object()
+				if obj == nil {
+					continue
+				}
+				if _, isVar := obj.(*types.Var); !isVar {
+					continue
+				}
+				if sv, ok := st.vals[d.X]; ok && sv.Loc != nil {
+					if _, dup := addrVars[obj.Name()]; !dup {
+						addrVars[obj.Name()] = CV{T: ex.loadLoc(st, sv.Loc), Sort: ex.w.sortOf(sv.Loc.Elem), Type: sv.Loc.Elem}
+					}
+				}
+				continue
+			}
 			if d, ok := in.(*ssa.DebugRef); ok && !d.IsAddr {
 				obj := d.Object()
 				if obj == nil {
